@@ -66,6 +66,17 @@ def vector_global_program():
     return ("global-vector", m)
 
 
+def failing_program():
+    """invocations that fail deep inside nested calls (a division by zero at recursion depth n, before any global is written) between
+    invocations that succeed: a failed invocation leaves nothing behind"""
+    n = V("n")
+    deep = Func("deep", [Arg("int", "n"), Arg("int", "z")], "int", Block([If(B("<=", n, I(0)), Block([Ret(B("/", I(10), V("z")))])), Ret(B("+", Call("deep", [B("-", n, I(1)), V("z")]), I(1)))]))
+    m = Module([Global("int", "total"), deep,
+                Func("boom", [Arg("int", "n")], "int", Block([Ret(Call("deep", [n, I(0)]))]), export=True),
+                Func("work", [Arg("int", "n"), Arg("int", "d")], "int", Block([ES(A(V("total"), B("+", V("total"), Call("deep", [n, V("d")])))), Ret(V("total"))]), export=True)])
+    return ("failing-invocations", m)
+
+
 def run(ctx):
     ctx.static_obligations(STATIC)
     repo = ctx.sync_repo(1)[0]
@@ -116,6 +127,18 @@ def run(ctx):
             if rng.random() < 0.1:
                 c["globals"] = {"g": [rng.choice([0.25, 9.0]) for _ in range(4)]}
             calls.append(c)
+        cases.append((name, m, calls))
+    name, m = failing_program()
+    for rep in range(2 if ctx.tier == "quick" else 8):
+        calls = [{"vm": v, "fn": "work", "args": {"n": 2, "d": 5}, "globals": {"total": 0}, "read_globals": ["total"]} for v in (0, 1)]
+        for q in range(30 if ctx.tier == "quick" else 60):
+            vm = rng.choice([0, 0, 1])
+            if rng.random() < 0.6:
+                calls.append({"vm": vm, "fn": "boom", "args": {"n": rng.choice([40, 55, 70])}, "globals": {}, "read_globals": [], "expect_fail": "ZeroDivisionError"})
+            else:
+                calls.append({"vm": vm, "fn": "work", "args": {"n": rng.choice([3, 30, 60]), "d": rng.choice([1, 2, 4])}, "globals": {}, "read_globals": ["total"]})
+        calls.append({"vm": 0, "fn": "work", "args": {"n": 60, "d": 4}, "globals": {}, "read_globals": ["total"]})
+        calls.append({"vm": 1, "fn": "work", "args": {"n": 60, "d": 4}, "globals": {}, "read_globals": ["total"]})
         cases.append((name, m, calls))
     name, m = recursive_program()
     for rep in range(4 if ctx.tier == "quick" else 16):
@@ -187,12 +210,24 @@ def run(ctx):
         j = vmcases.job(text, calls, optimize=bool(k % 2))
         for jc, c in zip(j["calls"], calls):
             jc["vm"] = c["vm"]
+        if name == "failing-invocations":
+            j["continue_after_failure"] = True
         jobs.append(j)
     res = ctx.run_impl("compile_impl.py", jobs, nworkers=16)
     blocks, meta, direct_bad = [], [], []
     for k, ((name, m, calls), j, r) in enumerate(zip(cases, jobs, res)):
         if not r["accept"] or "ir" not in r:
             direct_bad.append((name, j["src"], r)); continue
+        if name == "failing-invocations":
+            # the invocations that must fail are checked here and taken out of the history: they write no global before they fail, so the
+            # reference state machine and the VM model see the remaining operations only
+            wrong = [(c, x) for c, x in zip(calls, r["calls"]) if c.get("expect_fail") and not ("fail" in x and x["fail"].get("exc") == c["expect_fail"])]
+            if wrong or len(r["calls"]) != len(calls):
+                direct_bad.append((name, j["src"], {"what": "an invocation that divides by zero deep inside nested calls did not fail with ZeroDivisionError (or the history stopped)",
+                                                    "call": wrong[0][0] if wrong else None, "observed": wrong[0][1] if wrong else r["calls"][-1:]})); continue
+            keep = [n_ for n_, c in enumerate(calls) if not c.get("expect_fail")]
+            calls = [calls[n_] for n_ in keep]
+            r = dict(r, calls=[r["calls"][n_] for n_ in keep])
         prog = ircoq.program({"functions": r["ir"]["functions"], "globals": r["ir"]["globals"]})
         obs = []
         for c, x in zip(calls, r["calls"]):
